@@ -86,7 +86,7 @@ def run(module_path, cfg_text, env=None, workers=16, timeout=900, simulate=None,
         cmd += list(extra)
     cmd.append(module_path)
     e = dict(os.environ)
-    jopts = "-DTLA-Library=%s -Xmx%s" % (LIBPATH, heap)
+    jopts = "-DTLA-Library=%s -Xmx%s -Xss64m" % (LIBPATH, heap)      # deep RECURSIVE operators: generous thread stacks
     if dfs:
         jopts += " -Dtlc2.tool.queue.IStateQueue=StateDeque"
     e["JAVA_TOOL_OPTIONS"] = jopts
